@@ -644,6 +644,12 @@ def run(ctx):
         p4.viol("P4:undecided", "cannot be interpreted on the current code (%s): not decided on this tree (fail closed)" % str(u)[:300])
     rules.append(p4)
     rules.append(p5)
+    # ... and that a recorded path shadowed by another merged plural still gets the form's reference resolved (C06.R3's clause; an unresolved
+    # reference reaches `unreachable!("called reduce_into on unresolved foreign key")` in code generation)
+    from rules import c06 as _c06b
+    _fn3 = [getattr(_c06b, n_) for n_ in dir(_c06b) if n_.startswith("r3_")][0]
+    rules.append(_borrow(_fn3(ctx, prog), "C09.P6", "every recorded reference is resolved, also when another merged plural took its form's name",
+                         "`never panics`: a `$t(..)` left unresolved in a plural form reaches unreachable!() in reduce_into", only=r"both-candidates", floor=1))
     return rules
 
 MANIFEST_ENTRY = {
